@@ -29,7 +29,7 @@ func init() {
 	Register("C33", &Info{
 		Run:   runC33,
 		Quick: 10000, Thor: 1000000,
-		Rule: "a world = one fingerprint (every parrot by stratum, randomized, generated specs, HelloGolang) and version, whose peer is made hostile in one of two ways: (a) the server's byte stream is corrupted at the transport - bit flips, byte runs overwritten with drawn garbage, truncation, reset, an oversized record header, random records injected - at an offset drawn over the whole server flight and the first application records; (b) the reference server mutates one plaintext handshake message before hashing and encrypting it (ServerHello incl. HelloRetryRequest with cookie, EncryptedExtensions incl. ALPS, Certificate, CompressedCertificate, CertificateVerify, Finished, NewSessionTicket, TLS 1.2 ServerKeyExchange/ServerHelloDone): byte flips, truncation, extension, inner length fields set to extreme values, with the outer length fixed up or not, a well-formed but unsolicited extension of a drawn known type (early_data, cookie, key_share, pre_shared_key, ALPS, ECH, ...) inserted into the extension block of ServerHello / EncryptedExtensions / Certificate entry / CertificateRequest / NewSessionTicket with every enclosing length fixed up, (every tenth world enumerates message type x extension code point x body shape by run index) or a CompressedCertificate whose stream is valid up to the declared length and then goes on decompressing into 48 MB; (c) every fifth world: the reference server completes a genuine handshake and then misbehaves under the negotiated keys - floods of zero-length application_data records (10 .. 150000), KeyUpdate storms with and without update_requested, HelloRequest runs under TLS 1.2, a correctly keyed CBC record whose plaintext is padding only (TLS 1.0-1.2), (the client's renegotiation support drawn: never / once / freely), unexpected handshake messages of drawn types - optionally while the client's own transport writes fail once, fail for good, or block (peer stops reading); the client then keeps using the connection (Read x3, Write, Read, Close); (d) every twentieth world: the reference server completes a genuine handshake but issues an odd session ticket (zero-length, one byte, 65000 bytes, garbage) and a second connection over the same session cache follows; the client runs Handshake and then Read under a 30 s deadline; oracle: no panic in any task, the world neither deadlocks nor hits the step cap and every client call returns by the deadline, and the bytes allocated while the connection runs stay below 6 MB (the largest legitimate message is a 256 kB certificate message); non-trivial = the mutated bytes were consumed by the client; distinct = (fingerprint, hostile mode, target, mutation, offset class)",
+		Rule: "a world = one fingerprint (every parrot by stratum, randomized, generated specs, HelloGolang) and version, whose peer is made hostile in one of two ways: (a) the server's byte stream is corrupted at the transport - bit flips, byte runs overwritten with drawn garbage, truncation, reset, an oversized record header, random records injected - at an offset drawn over the whole server flight and the first application records; (b) the reference server mutates one plaintext handshake message before hashing and encrypting it (ServerHello incl. HelloRetryRequest with cookie, EncryptedExtensions incl. ALPS, Certificate, CompressedCertificate, CertificateVerify, Finished, NewSessionTicket, TLS 1.2 ServerKeyExchange/ServerHelloDone): byte flips, truncation, extension, inner length fields set to extreme values, with the outer length fixed up or not, a well-formed but unsolicited extension of a drawn known type (early_data, cookie, key_share, pre_shared_key, ALPS, ECH, ...) inserted into the extension block of ServerHello / EncryptedExtensions / Certificate entry / CertificateRequest / NewSessionTicket with every enclosing length fixed up, (every tenth world enumerates message type x extension code point x body shape by run index) a CompressedCertificate whose stream is valid up to the declared length and then goes on decompressing into 48 MB, or a well-formed zstd frame of raw blocks whose header announces a 16 MiB .. 512 MiB window; (c) every fifth world: the reference server completes a genuine handshake and then misbehaves under the negotiated keys - floods of zero-length application_data records (10 .. 150000), KeyUpdate storms with and without update_requested, HelloRequest runs under TLS 1.2, a correctly keyed CBC record whose plaintext is padding only (TLS 1.0-1.2), (the client's renegotiation support drawn: never / once / freely), unexpected handshake messages of drawn types - optionally while the client's own transport writes fail once, fail for good, or block (peer stops reading); the client then keeps using the connection (Read x3, Write, Read, Close); (d) every twentieth world: the reference server completes a genuine handshake but issues an odd session ticket (zero-length, one byte, 65000 bytes, garbage) and a second connection over the same session cache follows; the client runs Handshake and then Read under a 30 s deadline; oracle: no panic in any task, the world neither deadlocks nor hits the step cap and every client call returns by the deadline, and the bytes allocated while the connection runs stay below 6 MB (the largest legitimate message is a 256 kB certificate message); non-trivial = the mutated bytes were consumed by the client; distinct = (fingerprint, hostile mode, target, mutation, offset class)",
 		Assumptions: []string{"mutation-based, not coverage-guided", "the worker process runs with a 32 MB goroutine stack limit (debug.SetMaxStack)", "allocation is measured as runtime.MemStats.TotalAlloc growth of the whole worker process during the world (client, server and harness together)"},
 		Real:        []string{"utls client from /repo"},
 		Stub:        []string{"hostile peers: corrupted utls/std server streams; reference server with message mutation", "transport, clock, crypto/rand"},
@@ -276,6 +276,42 @@ func runC33(c *Ctx) {
 	}
 	mode := []string{"transport", "mutate", "mutate"}[ch.Pick(3, "mode")]
 	srvMax := []uint16{tls.VersionTLS13, tls.VersionTLS13, tls.VersionTLS12, tls.VersionTLS11}[ch.Pick(4, "srvmax")]
+	// one world in forty belongs to the compressed-certificate stratum: a hand-edited browser spec
+	// that advertises a drawn set of certificate compression algorithms (no predefined parrot of
+	// this tree offers zstd, applications' own specs do), a TLS 1.3 server that compresses with one
+	// of them, and the hostile streams below; two thirds of these worlds mutate nothing else
+	ccStratum := c.Run%40 == 11
+	if ccStratum {
+		var algs []tls.CertCompressionAlgo
+		for _, a := range []tls.CertCompressionAlgo{tls.CertCompressionZstd, tls.CertCompressionBrotli, tls.CertCompressionZlib} {
+			if ch.Bool(60, "cc-alg") {
+				algs = append(algs, a)
+			}
+		}
+		if len(algs) == 0 {
+			algs = []tls.CertCompressionAlgo{tls.CertCompressionZstd}
+		}
+		base := []tls.ClientHelloID{tls.HelloChrome_120, tls.HelloFirefox_120, tls.HelloSafari_16_0}[ch.Pick(3, "cc-base")]
+		f = &Fingerprint{Kind: "custom", IDI: IDInfo{"Custom", tls.HelloCustom}, Desc: fmt.Sprintf("%s+compress_certificate%v", base.Str(), algs),
+			NewSpec: func() *tls.ClientHelloSpec {
+				spec, err := tls.UTLSIdToSpec(base)
+				if err != nil {
+					panic(err)
+				}
+				found := false
+				for _, e := range spec.Extensions {
+					if cc, ok := e.(*tls.UtlsCompressCertExtension); ok {
+						cc.Algorithms, found = append([]tls.CertCompressionAlgo(nil), algs...), true
+					}
+				}
+				if !found {
+					spec.Extensions = append(spec.Extensions[:len(spec.Extensions):len(spec.Extensions)], &tls.UtlsCompressCertExtension{Algorithms: append([]tls.CertCompressionAlgo(nil), algs...)})
+				}
+				return &spec
+			}}
+		mode, srvMax = "mutate", tls.VersionTLS13
+		c.Probe("compressed-certificate-stratum")
+	}
 	// every tenth world belongs to the enumerated stratum of structure-aware mutations: message
 	// type x extension code point x body shape are taken from the run index, so that every
 	// combination occurs in every quick batch
@@ -298,6 +334,7 @@ func runC33(c *Ctx) {
 	desc := ""
 	hugeLen := false
 	bombAlg := uint16(0)
+	zstdWindow := 0
 	var link *simnet.Link
 	var consumedCheck func() bool
 	switch mode {
@@ -364,22 +401,33 @@ func runC33(c *Ctx) {
 		cfg.MaxVersion = srvMax
 		cfg.NextProtos = []string{"h2", "http/1.1"}
 		extras := ch.Pick(5, "extras")
+		if ccStratum {
+			extras = 2
+		}
 		switch extras {
 		case 1:
 			cfg.Byz.HRRCookie = []byte("cookie-cookie")
 			cfg.CurvePreferences = []refsrv.CurveID{refsrv.CurveP384}
 		case 2:
 			cfg.Byz.CertCompAlg = uint16(1 + ch.Pick(3, "compalg"))
-			if dry, err := DryHello(negCfg(), f.IDI.ID, f.Spec()); err == nil && len(dry.CertCompression) > 0 && ch.Bool(60, "advertised-alg") {
+			if dry, err := DryHello(negCfg(), f.IDI.ID, f.Spec()); err == nil && len(dry.CertCompression) > 0 && (ccStratum || ch.Bool(60, "advertised-alg")) {
 				cfg.Byz.CertCompAlg = dry.CertCompression[ch.Pick(len(dry.CertCompression), "adv")]
-				if ch.Bool(50, "huge-declared-length") {
+				if ch.Bool(pctIf(ccStratum, 20, 50), "huge-declared-length") {
 					// a tiny message announcing the largest uncompressed_length the field can hold
 					cfg.Byz.CertCompLenDelta = 0xffffff - 2000
 					c.Probe("huge-declared-length")
 					hugeLen = true
 				}
 			}
-			if cfg.Byz.CertCompLenDelta == 0 && ch.Bool(35, "bomb") {
+			if cfg.Byz.CertCompLenDelta == 0 && cfg.Byz.CertCompAlg == 3 && ch.Bool(50, "zstd-window") {
+				// a well-formed zstd frame (raw blocks holding the real message) whose header announces a
+				// window of 16 MiB .. 512 MiB: a decoder that allocates what the header says before it
+				// has seen any data pays that much for a message of a few hundred bytes
+				wd := []byte{0x70, 0x78, 0x80, 0x88, 0x98}[ch.Pick(5, "window-descriptor")]
+				zstdWindow = 10 + int(wd>>3)
+				c.Probe(fmt.Sprintf("zstd-window-2^%d", zstdWindow))
+			}
+			if cfg.Byz.CertCompLenDelta == 0 && zstdWindow == 0 && ch.Bool(35, "bomb") {
 				// a stream that is valid up to the declared length and then goes on decompressing
 				// into tens of megabytes (reused encoders: the harness allocates next to nothing)
 				bombAlg = cfg.Byz.CertCompAlg
@@ -391,6 +439,10 @@ func runC33(c *Ctx) {
 			cfg.Byz.CertCompress = zlibCompress(0, 0)
 			if bombAlg != 0 {
 				cfg.Byz.CertCompress = bombCompress // declared length stays that of the real message
+			}
+			if zstdWindow != 0 {
+				zw := zstdWindow
+				cfg.Byz.CertCompress = func(alg uint16, msg []byte) []byte { return zstdRawFrame(msg, byte((zw-10)<<3)) }
 			}
 		case 3:
 			cfg.Byz.ALPSCodepoint = []uint16{17513, 17613}[ch.Pick(2, "alpscp")]
@@ -449,6 +501,12 @@ func runC33(c *Ctx) {
 		sp.Setup = func(l *simnet.Link) { link = l; l.Frag = ch.Bool(40, "frag") }
 		desc = fmt.Sprintf("mutate/type=%d nth=%d fix=%v extras=%d", target, nth, fix, extras)
 		consumedCheck = func() bool { desc += " " + mdesc; return applied }
+		if ccStratum && ch.Bool(66, "cc-only") {
+			// nothing but the compressed certificate is hostile in this world
+			cfg.Byz.Mutate = nil
+			desc = fmt.Sprintf("compressed-certificate alg=%d window=%d bomb=%d hugelen=%v %s", cfg.Byz.CertCompAlg, zstdWindow, bombAlg, hugeLen, f.Desc)
+			consumedCheck = func() bool { return true }
+		}
 	}
 	sp.Payload = [][]byte{[]byte("ping")}
 	var readAfter error
@@ -487,10 +545,11 @@ func runC33(c *Ctx) {
 		c.Violate("client-call-returned-after-deadline "+mode, "%s: world ended at %v", c.R.Class, w.Now())
 	}
 	limit := uint64(allocLimit)
-	if bombAlg != 0 {
-		// a real brotli / zstd decoder allocates its window (up to 16 MB by RFC 7932) before the first
-		// byte comes out: that much is within the formats' own limits
-		limit = 32 << 20
+	if bombAlg != 0 || zstdWindow != 0 {
+		// a real brotli / zstd decoder allocates its window before the first byte comes out: up to
+		// 16 MiB for brotli (RFC 7932), and for zstd whatever the frame header announces up to the
+		// decoder's cap - 32 MiB (plus a block) is the most a client should grant a certificate
+		limit = 40 << 20
 	}
 	if grown > limit {
 		what := strings.SplitN(desc, " ", 2)[0]
@@ -499,6 +558,9 @@ func runC33(c *Ctx) {
 		}
 		if bombAlg != 0 {
 			what = "compressed-certificate-bomb"
+		}
+		if zstdWindow != 0 {
+			what = fmt.Sprintf("zstd-frame-window=2^%d", zstdWindow)
 		}
 		c.Violate(fmt.Sprintf("allocation-beyond-protocol-limits %s", what), "%s: %d bytes allocated during the connection (limit %d); client error %v", c.R.Class, grown, limit, o.CErr)
 	}
@@ -692,6 +754,33 @@ var (
 	bombBuf bytes.Buffer
 	bombZero = make([]byte, 1<<16)
 )
+
+func pctIf(c bool, a, b int) int {
+	if c {
+		return a
+	}
+	return b
+}
+
+// zstdRawFrame wraps msg in a zstd frame made of raw blocks, with the given Window_Descriptor.
+func zstdRawFrame(msg []byte, wd byte) []byte {
+	out := []byte{0x28, 0xb5, 0x2f, 0xfd, 0x00, wd}
+	for first := true; first || len(msg) > 0; first = false {
+		n := len(msg)
+		if n > 1<<16 {
+			n = 1 << 16
+		}
+		last := 0
+		if n == len(msg) {
+			last = 1
+		}
+		h := n<<3 | last
+		out = append(out, byte(h), byte(h>>8), byte(h>>16))
+		out = append(out, msg[:n]...)
+		msg = msg[n:]
+	}
+	return out
+}
 
 // bombCompress compresses msg followed by bombTail zero bytes with the announced algorithm, using
 // one encoder per process (Reset between uses).
